@@ -372,3 +372,14 @@ def r7(ctx):
                      'are indexed in Characters (graphemes when use_graphemes is set)' % ((t.callee_res() or ''), t.span['line']), t.span)
     if ok:
         ctx.ok(b, 'edit_word and its %d closures measure lengths through CharString only (%d CS::new sites)' % (len(bodies) - 1, len(cs)))
+
+
+@rule('C15', 'R-C15-8', 'T11 SIBLING (one segmentation)',
+      'every CharString::new of the spelling corruption code receives the caller\'s grapheme flag unchanged (a parameter, configuration field or '
+      'captured variable): a site that "optimises" the flag (e.g. `use_graphemes && !s.is_ascii()`) segments "\\r\\n" and friends '
+      'differently from the sites it must agree with')
+def r_segflag(ctx):
+    from rules.common import check_segmentation_flag
+    n = check_segmentation_flag(ctx, [ctx.body(n) for n in ['corrupt::edit_word']], 'spelling corruption')
+    if n == 0:
+        raise AnchorMissing('CharString::new sites of the spelling corruption code')
